@@ -172,8 +172,24 @@ def r_erase(sh, rep):
     visit(f["body"], False)
     rep.check(not cond_inf, "R14-ERASE", "infer_trace#inference-is-level-independent", sh.loc(TE, cond_inf[0]) if cond_inf else sh.loc(TE, f), "infer_trace infers a sub-expression (`%s`) only under some trace level: what is not inferred is not accounted as used, so a `let` whose only use is a trace argument is dropped — with the abort it contained — in exactly those builds" % (sh.nsrc(TE, cond_inf[0])[:60] if cond_inf else ""), sample={"conditional_inferences": len(cond_inf)})
     outs = {}
+    # two shapes: the match *is* the result (each arm a result), or it selects a value bound to a local that the tail
+    # expression uses (arms may `return` early); per level the function's result is the arm / the returned value / the tail
+    holder = [n for n in walk(f["body"]) if n["k"] == "Local" and n.get("init") is m[-1] and n["pat"].get("k") == "Ident"]
+    tail = None
+    if holder:
+        lastst = f["body"]["stmts"][-1]
+        tail = lastst.get("e") if lastst.get("k") == "ExprStmt" and not lastst.get("semi") else None
     for v, arm, alt in arm_table(m[-1]):
-        outs[v] = _erase(sh, TE, arm["body"])
+        b = arm["body"]
+        if b.get("k") == "Block" and len(b.get("stmts", [])) == 1 and b["stmts"][0].get("k") == "ExprStmt":
+            b = b["stmts"][0]["e"]
+        if b.get("k") == "Return" and b.get("e") is not None:
+            outs[v] = _erase(sh, TE, b["e"])
+        elif holder and tail is not None:
+            er = _erase(sh, TE, tail)
+            outs[v] = er if not re.search(r"(?<![\w.])%s\b" % re.escape(holder[0]["pat"]["name"]), er) else "%s-dependent:%s" % (v, er)
+        else:
+            outs[v] = _erase(sh, TE, arm["body"])
     rep.check(len(set(outs.values())) == 1 and set(outs) >= {"Silent", "Compact", "Verbose"}, "R14-ERASE", "infer_trace#arms-equal-modulo-trace", sh.loc(TE, m[-1]), "the three trace levels must type `trace`/`todo`/`fail` to the same continuation once the Trace wrapper is erased; found %s" % outs, sample=outs)
     # (b) wrap_validator_condition
     g = find_fn(sh.file(BLD), "wrap_validator_condition")
